@@ -155,7 +155,16 @@ pub fn display(form: &str, pairs: &str) -> String {
         Some(t) => t,
         None => return "panic".into(),
     };
-    let back = parse_all(&text);
+    let mut back = parse_all(&text);
+    // "parsing the text back yields an EQUAL composition": `==` on the same type, not just the same entries
+    let eq_back = guarded(|| match &reg {
+        Reg::Vec(c) => ChemicalCompositionVec::from_str(&text).map(|p| p == *c).unwrap_or(false),
+        Reg::Map(c) => ChemicalCompositionMap::from_str(&text).map(|p| p == *c).unwrap_or(false),
+        Reg::Enum(c) => ChemicalComposition::from_str(&text).map(|p| p == *c && *c == p).unwrap_or(false),
+    });
+    if eq_back != Some(true) && back.starts_with("ok") {
+        back = format!("not-equal-to-original {back}");
+    }
     // serde: compositions serialise as that text; Vec and Map deserialise from it
     let json = guarded(|| match &reg {
         Reg::Vec(c) => serde_json::to_string(c).unwrap_or_else(|e| format!("ser-err {e}")),
